@@ -3,7 +3,6 @@
 the recogniser theorem of Proofs/ReqPrint.lean reads back, and the dispatch rebuilds the dependency from them.
 -/
 import PoetryVerif.Proofs.ReqPrint
-import PoetryVerif.Proofs.Dep02
 
 set_option linter.unusedSimpArgs false
 set_option linter.unusedVariables false
